@@ -351,7 +351,11 @@ def check(case, ctx):
                     items.append(_it("node_label_lacks_identifier", uri=r.identifier.uri, labels=[o.get("label", "")[:80] for o in cands]))
                 if opts["use_labels"]:
                     lab = _core(r.label)
-                    if not any(sk(lab) in sk(t_) or sk(lab) in sk(o.get("label", "")) for t_, o in zip(texts, cands)):
+                    # (subsequence, not substring: the rendering may escape control characters, e.g. CR as backslash-r)
+                    def _sub(small, big):
+                        it = iter(big)
+                        return all(ch in it for ch in small)
+                    if not any(_sub(sk(lab), sk(t_)) or _sub(sk(lab), sk(o.get("label", ""))) for t_, o in zip(texts, cands)):
                         items.append(_it("node_label_lacks_prov_label", uri=r.identifier.uri, want=lab[:60], labels=[o.get("label", "")[:80] for o in cands]))
     # relation paths
     out_edges = {}
